@@ -61,6 +61,9 @@ fn is_space(c: char) -> bool {
 struct P<'a> {
     s: &'a str,
     pos: usize,
+    /// general entities declared in the internal DTD subset with a plain literal value
+    /// (no markup, no references in the replacement text)
+    entities: std::collections::HashMap<String, String>,
 }
 
 impl<'a> P<'a> {
@@ -164,7 +167,10 @@ impl<'a> P<'a> {
                 "gt" => out.push('>'),
                 "quot" => out.push('"'),
                 "apos" => out.push('\''),
-                _ => return self.err(format!("undeclared entity &{n};")),
+                _ => match self.entities.get(&n) {
+                    Some(v) => out.push_str(&v.clone()),
+                    None => return self.err(format!("undeclared entity &{n};")),
+                },
             }
             Ok(())
         }
@@ -217,7 +223,7 @@ pub fn parse(input: &[u8], mode: Mode) -> Result<Vec<Ev>, XmlError> {
         msg: "not valid UTF-8".into(),
     })?;
     let s = s.strip_prefix('\u{FEFF}').unwrap_or(s);
-    let mut p = P { s, pos: 0 };
+    let mut p = P { s, pos: 0, entities: std::collections::HashMap::new() };
     let mut evs = Vec::new();
     let mut stack: Vec<String> = Vec::new();
     let mut roots = 0usize;
@@ -335,7 +341,27 @@ pub fn parse(input: &[u8], mode: Mode) -> Result<Vec<Ev>, XmlError> {
                     _ => {}
                 }
             }
-            evs.push(Ev::Doctype(p.s[start..p.pos].to_string()));
+            let text = p.s[start..p.pos].to_string();
+            // <!ENTITY name "literal"> declarations of the internal subset
+            let mut rest = text.as_str();
+            while let Some(at) = rest.find("<!ENTITY") {
+                rest = &rest[at + 8..];
+                let t = rest.trim_start();
+                if t.len() == rest.len() || t.starts_with('%') {
+                    continue;
+                }
+                let name: String = t.chars().take_while(|c| is_name_char(*c)).collect();
+                let after = t[name.len()..].trim_start();
+                if let Some(q) = after.chars().next().filter(|c| *c == '"' || *c == '\'') {
+                    if let Some(end) = after[1..].find(q) {
+                        let value = &after[1..1 + end];
+                        if !name.is_empty() && !value.contains('<') && !value.contains('&') && !value.contains('%') {
+                            p.entities.entry(name).or_insert_with(|| value.to_string());
+                        }
+                    }
+                }
+            }
+            evs.push(Ev::Doctype(text));
         } else if p.eat("<?") {
             let target = p.name()?;
             if target.eq_ignore_ascii_case("xml") {
@@ -561,7 +587,7 @@ pub fn canonical(evs: &[Ev]) -> Vec<Ev> {
 
 const CONF_TOKENS: &[&[u8]] = &[
     b"<a>", b"</a>", b"<b ", b"<a", b"x=\"", b"y='", b"x=\"1\"", b"\"", b"'", b"/>", b">", b"<!--", b"-->", b"--", b"<![CDATA[", b"]]>", b"<?p", b"?>", b"&amp;", b"&#65;", b"&#x0;",
-    b"&q;", b"&", b"<", b"t", b" ", "\u{e9}".as_bytes(), b"\xFF", b"<?xml version=\"1.0\"?>", b"\n", b"\t",
+    b"&q;", b"&", b"<", b"t", b" ", "\u{e9}".as_bytes(), b"\xFF", b"<?xml version=\"1.0\"?>", b"\n", b"\t", b"<!DOCTYPE a [<!ENTITY q \"v\">]>", b"<!DOCTYPE a>",
 ];
 
 fn conf_events(evs: &[Ev]) -> serde_json::Value {
@@ -609,7 +635,7 @@ fn conf_events(evs: &[Ev]) -> serde_json::Value {
 }
 
 /// Exhaustive conformance of this reader with expat (python3 stdlib) over every string of <= k tokens
-/// from a 31-token XML alphabet: same verdict, and on acceptance the same event stream.
+/// from a 33-token XML alphabet: same verdict, and on acceptance the same event stream.
 /// Returns (documents compared, accepted by both) or a description of the first disagreement.
 pub fn expat_conformance(k: usize) -> Result<(u64, u64), String> {
     use std::io::{BufRead, Write};
